@@ -89,6 +89,30 @@ def get_equilibrium(kind, options):
             wall=[(1.25, -0.45), (1.25, 0.45), (1.75, 0.45), (1.75, -0.45)])
 
 
+def xslots(eq):
+    """per equilibrium region, for xPointsAtStart / xPointsAtEnd: one entry per radial boundary, None or
+    (number of the X-point in eq.x_points, psi(X-point) - psi of that radial boundary, number of the X-point nearest to that end of the region)"""
+    import numpy as np
+
+    xp = list(getattr(eq, "x_points", []))
+    out = []
+    for name, r in eq.regions.items():
+        pb = [float(pv[0]) for pv in r.psi_vals] + [float(r.psi_vals[-1][-1])]
+        row = {"name": name}
+        for end, slots, P in (("start", r.xPointsAtStart, r.points[0]), ("end", r.xPointsAtEnd, r.points[-1])):
+            o = []
+            for i, x in enumerate(slots):
+                if x is None:
+                    o.append(None)
+                    continue
+                which = [k for k, p in enumerate(xp) if p is x or (p.R == x.R and p.Z == x.Z)]
+                near = int(np.argmin([np.hypot(P.R - p.R, P.Z - p.Z) for p in xp])) if xp else -1
+                o.append((which[0] if which else -1, float(eq.psi(x.R, x.Z)) - pb[i], near))
+            row[end] = o
+        out.append(row)
+    return out
+
+
 def run_stub(kind, options):
     """returns dict: ints, per-region info (id, name, seg, x/y slices, connections), arrays from the written file"""
     from hypnotoad.core import mesh as meshmod
@@ -130,6 +154,7 @@ def run_stub(kind, options):
         out["region_order"] = list(eq.regions.keys())
         out["nx_segments"] = list(next(iter(eq.regions.values())).nx)
         out["ny_regions_noguards"] = [r.ny_noguards for r in eq.regions.values()]
+        out["xslots"] = xslots(eq)
         out["y_groups"] = [[r.myID for r in g] for g in m.y_groups]
         out["x_groups"] = [[r.myID for r in g] for g in m.x_groups]
         out["double_null_type"] = getattr(eq, "double_null_type", None)
